@@ -5,11 +5,13 @@
 (* strings carried in the trace, and compared with the text the code produced).                     *)
 (*                                                                                                  *)
 (* One ndjson line per execution (each execution is a one-event trace; the contract is stateless):  *)
-(*  {"op":"fmt","id":n,"pattern":s,"b":{..values..},"res":"ok"|"rejected"|"error"|"missing","out":s} *)
+(*  {"op":"fmt","id":n,"pattern":s,"bi":k,"res":"ok"|"rejected"|"error"|"missing","out":s}           *)
 (*      PatternFormatter constructed from `pattern`, format() called with the values in b           *)
-(*  {"op":"e2e","id":n,"pattern":s,"b":{..},"multi":bool,"named":bool,"outs":[s,...]}               *)
+(*  {"op":"e2e","id":n,"pattern":s,"bi":k,"multi":bool,"named":bool,"outs":[s,...]}                *)
 (*      one statement logged through the frontend, the queue and the backend worker; outs = the     *)
 (*      statements the recording sink received for it, in order                                     *)
+(* Statements are kept in a second file (IOEnv.STMTS, one record b per line) and referenced by       *)
+(* "bi" = line number there (many executions share a statement; TLC's JSON loading is the bottleneck). *)
 (* b = [time, caller_function, log_level, log_level_short_code, logger, thread_id, thread_name,     *)
 (*      process_id, source_location, message, tags : strings, named : sequence of <<key, value>>]   *)
 (*                                                                                                  *)
@@ -26,6 +28,7 @@ C == INSTANCE PatternContract WITH
        ColonSp <- ": ", CommaSp <- ", ", Txt <- StrTxt
 
 TraceLog == ndJsonDeserialize(IOEnv.TRACE)
+Stmts == ndJsonDeserialize(IOEnv.STMTS)
 N == Len(TraceLog)
 BlockSize == 256
 NBlocks == (N + BlockSize - 1) \div BlockSize
@@ -35,15 +38,16 @@ vars == <<blk, l>>
 
 \* dom: the property speaks about this execution; ok: what it demands holds
 Judge(e) ==
-  LET it == C!Items(e.pattern, 1)
+  LET b == Stmts[e.bi]
+      it == C!Items(e.pattern, 1)
       must == C!MustRejectI(it)
-      valid == C!ValidI(e.pattern, it) /\ C!WellFormedSrc(e.b.source_location)
+      valid == C!ValidI(e.pattern, it) /\ C!WellFormedSrc(b.source_location)
   IN IF e.op = "fmt"
      THEN [dom |-> must \/ valid,
            ok |-> /\ (must => e.res = "rejected")
-                  /\ (valid => (e.res = "ok" /\ e.out = C!Line(e.pattern, C!AllVals(e.b))))]
+                  /\ (valid => (e.res = "ok" /\ e.out = C!LineI(it, C!AllVals(b))))]
      ELSE [dom |-> valid,
-           ok |-> (valid => e.outs \in C!AllowedOuts(e.pattern, C!AllVals(e.b), e.multi, e.named))]
+           ok |-> (valid => e.outs \in C!AllowedOutsI(it, C!AllVals(b), e.multi, e.named))]
 
 Init == blk = 0 /\ l = 0
 Next == \/ /\ blk = 0
